@@ -158,5 +158,38 @@ def check_fit_independent_of_history(tier, seed):
     return {"bound": "4 samplers x 3 different RNG histories between fits", "evaluations": ev, "distinct_nontrivial": ev, "failures": fails, "samples": [{"models": [m[0] for m in models]}], "exhaustive": False}
 
 
-CHECKS = [check_cli_determinism, check_fit_independent_of_history]
+def check_writer_lines_intact(tier, seed):
+    """the writer process of a multi-core run: every queued record comes out as exactly one intact line, in order, for
+    any number of records (1 ... 250: beyond any batch size)"""
+    import io
+    import queue as _q
+    import sys as _sys
+    from mchap.application import baseclass as _B
+    from mchap.application import assemble as _A
+
+    ev = 0
+    fails = []
+    prog = _A.program.__new__(_A.program)
+    for n in (1, 2, 99, 100, 101, 200, 250):
+        q = _q.Queue()
+        lines = ["CHR1\t%d\tL%d\tA\tC\t.\tPASS\tX=%d" % (i + 1, i, i) for i in range(n)]
+        for ln in lines:
+            q.put(ln)
+        q.put(_B.KILL_SIGNAL)
+        buf = io.StringIO()
+        saved = _sys.stdout
+        _sys.stdout = buf
+        try:
+            prog._writer(q)
+        finally:
+            _sys.stdout = saved
+        ev += 1
+        got = buf.getvalue().split("\n")
+        if got != lines + [""] and len(fails) < 2:
+            bad_i = next((i for i, (a, b) in enumerate(zip(got, lines + [""])) if a != b), min(len(got), len(lines)))
+            fails.append({"key": "rt/writer_one_intact_line_per_record", "check": "mchap.application.baseclass.program._writer", "input": {"records": n}, "observed": {"lines": len(got) - 1, "first_difference_at": bad_i, "line": got[bad_i][:120] if bad_i < len(got) else None}, "expected": {"lines": n}})
+    return {"bound": "1 .. 250 queued records through program._writer", "evaluations": ev, "distinct_nontrivial": ev, "failures": fails, "samples": [], "exhaustive": False}
+
+
+CHECKS = [check_cli_determinism, check_fit_independent_of_history, check_writer_lines_intact]
 REPLAY = {}
